@@ -197,6 +197,12 @@ def run_job(job, io):
         return '%s|%s|p%d|%s|%s|%s|%s' % (it['obs']['kind'], bool(it['mentions']), it['proto'], history, it['eff_insertion'], it['nil'], outcome)
 
     def check_loaded(it, loaded, site, fresh=None, rebound=False):
+        try:
+            _check_loaded(it, loaded, site, fresh, rebound)
+        except Exception as e:  # noqa: BLE001 - the ORIGINAL could be observed, so a loaded treespec that cannot be is a violation
+            viol('observe-raised', site, 'using the loaded treespec raised %s: %s | spec=%r' % (type(e).__name__, e, it['spec']))
+
+    def _check_loaded(it, loaded, site, fresh=None, rebound=False):
         spec = it['spec']
         # treespec equality compares registration *objects*; after unregister + register (same callables) the loaded spec is
         # bound to the new registration object, so it is compared with a fresh flatten instead of the pre-drift original
@@ -288,8 +294,12 @@ def run_job(job, io):
                     except Exception as e:  # noqa: BLE001
                         viol('load-failed', 'load:%s' % route, '%s of a loaded treespec raised %s: %s' % (route, type(e).__name__, e))
                         continue
-                    if not (again == loaded) or hash(again) != hash(loaded) or diff(observe(loaded), observe(again)):
-                        viol('field-differs', 'load:%s' % route, '%s of a loaded treespec differs: %s' % (route, diff(observe(loaded), observe(again))))
+                    try:
+                        if not (again == loaded) or hash(again) != hash(loaded) or diff(observe(loaded), observe(again)):
+                            viol('field-differs', 'load:%s' % route, '%s of a loaded treespec differs: %s' % (route, diff(observe(loaded), observe(again))))
+                    except Exception as e:  # noqa: BLE001
+                        if not violations:
+                            viol('observe-raised', 'load:%s' % route, 'using the %s of a loaded treespec raised %s: %s' % (route, type(e).__name__, e))
             else:
                 if err is None:
                     viol('load-should-fail', site, 'pickle.loads returned %r although %s is not registered in namespace %r (nor globally) in the loading process' % (
